@@ -184,6 +184,8 @@ func registerRec() {
 				"Seq":   reflect.ValueOf(rec.Seq),
 				"Apply": reflect.ValueOf(rec.Apply),
 				"Fold":  reflect.ValueOf(rec.Fold),
+				"Str":   reflect.ValueOf(rec.Str),
+				"Err":   reflect.ValueOf(rec.Err),
 			},
 		}
 	})
